@@ -14,13 +14,13 @@ theorem src_c14_no_panic (W : World) (hD : ∀ x, (W.D x).length = 32) (script :
     (∀ s ℓ, (Gen.Code.CheckMnemonic W s ℓ (fresh script)).1.isPanic = false) ∧
     (∀ s ℓ, (Gen.Code.IsMnemonicValid W s ℓ (fresh script)).1.isPanic = false) ∧
     (∀ m p, (Gen.Code.MnemonicToSeed W m p (fresh script)).1.isPanic = false) ∧
-    (∀ i, (Gen.Code.Language_String W i (fresh script)).1.isPanic = false) := by
+    (∀ i, isInt64 i → (Gen.Code.Language_String W i (fresh script)).1.isPanic = false) := by
   refine ⟨?_, ?_, ?_, ?_, ?_, ?_⟩
   · intro e ℓ; rw [refine_NewMnemonicByEntropy]; exact c14_new_by_entropy W.D hD e ℓ
   · intro n ℓ; rw [refine_NewMnemonic]; exact c14_new W.D hD n ℓ script
   · intro s ℓ; rw [refine_CheckMnemonic]; exact (c14_check W.X W.D hD s ℓ).1
   · intro s ℓ; rw [refine_IsMnemonicValid]; exact (c14_check W.X W.D hD s ℓ).2
   · intro m p; rw [refine_MnemonicToSeed]; rfl
-  · intro i; rw [refine_Language_String]; exact c14_string i
+  · intro i hi; rw [refine_Language_String W i _ hi]; exact c14_string i
 
 end Bip39V
